@@ -4,12 +4,15 @@ import json
 import os
 import urllib.parse
 
+from harness import json_common as JC
 from harness.core import hx, unhx, Violation, excname
 
 LEAN_TARGETS = ["PoorProofs.Props.C10"]
 AUDIT_IMPORTS = ["PoorProofs.Props.C10"]
-LEAN_FILES = ["PoorModel/Query.lean", "PoorProofs/Lemmas/Query.lean", "PoorProofs/Props/C10.lean"]
-THEOREMS = ["Poor.Query.unquote_Enc", "Poor.Query.quotePlus_Enc",
+LEAN_FILES = ["PoorModel/Query.lean", "PoorProofs/Lemmas/Query.lean", "PoorProofs/Props/C10.lean", "PoorModel/Json.lean",
+              "PoorProofs/Lemmas/Json.lean", "PoorProofs/Props/JsonCodec.lean"]
+THEOREMS = ["Poor.Query.unquote_Enc", "Poor.Query.quotePlus_Enc", "Poor.Props.C10.C10_json_value",
+            "Poor.Props.JsonCodec.loadBytes_dumpBytes",
             "Poor.Props.C10.C10_roundtrip_any_encoding",
             "Poor.Props.C10.C10_roundtrip",
             "Poor.Props.C10.C10_query_args",
@@ -285,6 +288,19 @@ def observe(case):
                 return "ValueError"
         if t[1] == "enc":
             return hx(urllib.parse.urlencode(parse_pairs(t[2])))
+        if t[1] == "jl":
+            # `jl <utf-8 body>`: what parse_json_request hands over - a JsonDict / JsonList / scalar of that content, or 400
+            from poorwsgi.request import parse_json_request, JsonDict, JsonList
+            from poorwsgi.response import HTTPException
+            try:
+                v = parse_json_request(unhx(t[2]), "utf-8")
+            except HTTPException as err:
+                return str(err.args[0])
+            if isinstance(v, JsonDict):
+                v = dict(v.items())
+            elif isinstance(v, JsonList):
+                v = list(v)
+            return JC.show(v)
         if t[1] == "reads":
             # `reads <content-length> <stream> <k,k,..> <auto_data> <data_size> <cached_size>`: the handler reads a body the
             # framework does not parse, piece by piece
@@ -382,6 +398,8 @@ def to_model(case):
     t = case.split()
     if t[1] == "e2e":
         return []
+    if t[1] == "jl":
+        return ["JS load " + t[2]]
     if t[1] == "reads":
         return [" ".join(t[:5])]       # buffering settings do not matter to the model
     if t[1] == "args":
@@ -391,7 +409,7 @@ def to_model(case):
 
 
 def canon_model(line):
-    return line
+    return "400" if line == "error" else line
 
 
 # ---------------------------------------------------------------------------- generator
@@ -407,6 +425,14 @@ def plan_case(op, ad, aj, af, ds, cl, h09, mime, body):
 def generate(rng, tier):
     big = tier == "thorough"
     cases = []
+    # JSON bodies: hand-written corner cases, dumps of random values (both escape styles, other separators), single edits
+    for text in JC.HAND + JC.rand_texts(rng, 6000 if big else 900):
+        try:
+            cases.append("C10 jl " + JC.tok_text(text))
+        except UnicodeEncodeError:
+            pass
+    for raw in (b"\xff", b"\xc3", b'"\xed\xa0\x80"', b'"\xc0\xaf"', b"\xef\xbb\xbf[1]", b'"\xf4\x90\x80\x80"', b'["\xc3\xa9"]'):
+        cases.append("C10 jl " + hx(raw))
     for s in ["", "%", "%4", "%41", "a%41b", "%C3%A9", "%c3%a9", "é%41", "%C3é", "%zz", "%%41", "%4%41", "+", "a+b", "%2B",
               "%E2%82%AC", "%e2%82", "%F0%9F%98%80", "%ff", "%00", "100%", "%A", "%41%", "ž%C5%BE"]:
         cases.append("C10 unq " + hx(s))
